@@ -343,8 +343,8 @@ def clock_only_in_inputs(O):
                  "binding, a skipped loop touches no frame, and exactly one frame is popped when a loop ends - so the frame "
                  "holding the counter is there whenever it is read back")
 def frame_discipline(O):
-    from . import C01
-    C01.interpreter_arms(O)
+    from . import C01, dri
+    C01.interpreter_arms(dri.WithRep(O, dri.Rep({"family": "runtime"}, runtime_battery(), runtime_judge)))
 
 
 @obligation("C10/generator-not-held", profiles=("dev",),
